@@ -41,6 +41,7 @@ type Obligation struct {
 	Name    string   `json:"name"`
 	Kind    string   `json:"kind"`
 	Func    string   `json:"func"`
+	Unit    string   `json:"unit,omitempty"` // the function under contract whose verification generated it (Func may name an inlined callee)
 	Pos     string   `json:"pos,omitempty"`
 	Desc    string   `json:"desc,omitempty"`
 	Props   []string `json:"props,omitempty"`
